@@ -578,7 +578,11 @@ where
             }
             // If there are no more matches, then drain the queue.
             else if !self.tag_queue.is_empty() {
-                return Some(Ok(self.tag_queue.remove(0).0));
+                let tag = self.tag_queue.remove(0).0;
+                if tag.is_ignored() {
+                    continue;
+                }
+                return Some(Ok(tag));
             } else {
                 return None;
             }
